@@ -103,6 +103,17 @@ pub static PROPS: &[Prop] = &[
         stub: &["dashmap (shim: sharded map with simulated shard locks)", "std atomics"],
     },
     Prop {
+        id: "C10",
+        level: "exploration",
+        parts: &[Part { scenario: "sched", quick_runs: 40_000, thorough_runs: 600_000, classes: &["resumed-early", "cancelled-resumed", "result-twice", "schedule-error", "due-not-resumed", "not-finished", "result-missing", "result-wrong", "deadlock", "crash", "panic-on-caller-thread"] }],
+        quick_wall_s: 45,
+        thorough_wall_s: 600,
+        rule: "fresh process per run; 1-8 coroutine programs (suspend / delay 0..30ms / cpu work / return or panic, priorities incl. extremes) x 1-10/20 scheduling passes with generated budgets and clock advances x 0-3 cancels (ready, suspended, finished or unknown target; between passes or from a second thread at a generated instant inside a pass) x stall faults; non-trivial = a delay, a cancel or a panic happened; distinct = distinct (workload, schedule) fingerprints",
+        assumptions: COMMON_ASSUME,
+        real: &["core/src/scheduler.rs", "coroutine kernel as C07", "ordered work-steal queue as C03"],
+        stub: K_STUB,
+    },
+    Prop {
         id: "C09",
         level: "exploration",
         parts: &[Part { scenario: "co_life", quick_runs: 150_000, thorough_runs: 3_000_000, classes: &["request-leak"] }],
